@@ -15,6 +15,8 @@ import (
 	"fmt"
 	"io"
 	"os"
+	"runtime"
+	"runtime/debug"
 	"sort"
 	"strings"
 	"sync"
@@ -79,6 +81,9 @@ type caseDesc struct {
 	// shipped plug-in, generous limits) | hb (the accept hook of the shipped heartbeat plug-in)
 	Left  []string `json:"left,omitempty"`
 	Right []string `json:"right,omitempty"`
+	// the shared-pre-message class: rounds of {pre-phase sends that fail, then checkers whose receives overlap}
+	SharedRounds int   `json:"shared_rounds,omitempty"`
+	SharedSeed   int64 `json:"shared_seed,omitempty"`
 }
 
 var arrangeKinds = []string{"ok", "ok", "overloader", "hb", "refuse"}
@@ -120,6 +125,13 @@ type connRec struct {
 	checkerCalls   int
 	checkerRet     int64
 	assignedID     string
+	mode           string // checker behaviour when it is not the verdict class of the spec
+	tokenSeen      string // what the checker's receiver held when its receive returned
+	recvDone       bool
+	recvOK         bool
+	wroteToken     string // shared-pre-message class: the token this connection's client wrote ("": empty body / nothing)
+	sentAuth       bool
+	deserves       *bool         // shared-pre-message class: whether the token written on THIS connection deserves acceptance
 	trail          []string      // the PostAccept hooks (harness plug-ins and the checker) in the order they ran, "!" = refused
 	gate           chan struct{} // released by the harness: the parked checker gives its verdict
 	gateTimedOut   bool
@@ -184,6 +196,9 @@ func checker(sess auth.Session, fn auth.RecvOnce) (ret interface{}, stat *erpc.S
 	rec.mu.Lock()
 	rec.checkerCalls++
 	mode := rec.spec.Verdict
+	if rec.mode != "" {
+		mode = rec.mode
+	}
 	rec.mu.Unlock()
 	defer func() {
 		p := recover()
@@ -215,7 +230,11 @@ func checker(sess auth.Session, fn auth.RecvOnce) (ret interface{}, stat *erpc.S
 		return nil, erpc.NewStatus(403, "auth fail", "rejected without looking")
 	}
 	var info string
-	if stat = fn(&info); !stat.OK() {
+	stat = fn(&info)
+	rec.mu.Lock()
+	rec.tokenSeen, rec.recvDone, rec.recvOK = info, true, stat.OK()
+	rec.mu.Unlock()
+	if !stat.OK() {
 		return nil, stat
 	}
 	if strings.HasPrefix(mode, "setid-") || strings.HasPrefix(mode, "park-") {
@@ -984,6 +1003,10 @@ func evaluate(srv erpc.Peer, cs *caseState, recs []*connRec, final bool) []findi
 		// not authenticated: the verdict was not OK / never reached, or the exchange could not be completed
 		// (the AUTH_REPLY was not written) and the accept path refused the connection
 		failed := !rec.verdictOK || (served && !rec.sstat.OK())
+		if rec.deserves != nil && !*rec.deserves {
+			// shared-pre-message class: what counts is the token written on this connection, not what its checker was shown
+			failed, accepted = true, false
+		}
 		refused := served && !rec.sstat.OK()
 		judged := rec.verdictReached
 		calls := rec.checkerCalls
@@ -1113,6 +1136,274 @@ func evaluate(srv erpc.Peer, cs *caseState, recs []*connRec, final bool) []findi
 	return out
 }
 
+// ---------- the shared-pre-message class ----------
+//
+// History: (1) trigger - pre-phase sends that FAIL: a client sends its AUTH_CALL and is gone while the checker is
+// still deciding (parked on the harness gate), so the AUTH_REPLY cannot be written; (2) probe, right afterwards on
+// the same peer: two or three NEW connections whose checkers are all inside their receive before any of their
+// clients has sent a byte; the clients then send in a given order: one a valid token, the others an AUTH_CALL with
+// an empty body / a wrong token / nothing. Oracle: every checker is shown exactly the token its own connection
+// wrote, every connection gets the verdict its own token deserves, and the usual clauses hold for the ones that
+// do not deserve acceptance. The class runs with GOMAXPROCS(1) (pooled objects are handed out per P) and with the
+// garbage collector held off between the trigger and the moment the probe's checkers are inside their receives
+// (a collection empties the pools); both are restored afterwards.
+
+type probeRole struct {
+	token string // goodToken | badToken | "" (empty body) | "-" (sends nothing)
+}
+
+var sharedOrders = []struct {
+	label string
+	roles []probeRole // in the order their checkers enter the receive
+	write []int       // in the order their clients write
+}{
+	{"valid-then-empty", []probeRole{{goodToken}, {""}}, []int{0, 1}},
+	{"empty-then-valid", []probeRole{{""}, {goodToken}}, []int{0, 1}},
+	{"valid+bad-reversed", []probeRole{{goodToken}, {badToken}}, []int{1, 0}},
+	{"valid-then-silent", []probeRole{{goodToken}, {"-"}}, []int{0, 1}},
+	{"triple-valid-empty-bad", []probeRole{{goodToken}, {""}, {badToken}}, []int{0, 1, 2}},
+	{"triple-reversed", []probeRole{{""}, {badToken}, {goodToken}}, []int{2, 1, 0}},
+}
+
+// settle yields until cond holds (the process runs on one P here: a yield lets the other goroutines run until they block).
+func settle(cond func() bool) bool {
+	for i := 0; i < 200000; i++ {
+		if cond() {
+			for k := 0; k < 50; k++ {
+				runtime.Gosched()
+			}
+			return true
+		}
+		runtime.Gosched()
+	}
+	return false
+}
+
+func runShared(id string, c caseDesc) {
+	defer runtime.GOMAXPROCS(runtime.GOMAXPROCS(1))
+	cs := &caseState{conns: map[string]*connRec{}}
+	cur.Store(cs)
+	srv := erpc.NewPeer(erpc.PeerConfig{}, recorder{}, namer{}, auth.NewCheckerPlugin(checker, erpc.WithBodyCodec('s')))
+	rt := routes{call: srv.RouteCallFunc(AppCall), push: srv.RoutePushFunc(AppPush)}
+	srv.SetUnknownCall(func(ctx erpc.UnknownCallCtx) (interface{}, *erpc.Status) {
+		noteHandler(ctx.IP(), "unknown-call")
+		return nil, nil
+	})
+	var all []*connRec
+	gcPercent := 100
+	gcOff := false
+	defer func() {
+		if gcOff {
+			debug.SetGCPercent(gcPercent)
+		}
+		for _, rec := range all {
+			rec.ca.Close()
+			rec.release()
+		}
+		closed := make(chan struct{})
+		go func() { srv.Close(); close(closed) }()
+		select {
+		case <-closed:
+		case <-time.After(5 * time.Second):
+		}
+	}()
+	newConn := func(label, mode string) *connRec {
+		ca, cb := memconn.NewPair()
+		rec := &connRec{spec: connSpec{First: "shared-pre-message", Verdict: label, Timing: "post", After: "hold", Chunk: "whole"},
+			addr: ca.LocalAddr().String(), ca: ca, cb: cb, gate: make(chan struct{}), mode: mode}
+		cb.SetWriteTap(func(p []byte, total int64) {
+			rec.mu.Lock()
+			rec.out = append(rec.out, p...)
+			rec.mu.Unlock()
+		})
+		cs.mu.Lock()
+		cs.conns[rec.addr] = rec
+		cs.mu.Unlock()
+		all = append(all, rec)
+		return rec
+	}
+	serve := func(rec *connRec) {
+		go func() {
+			s, st := srv.ServeConn(rec.cb)
+			rec.mu.Lock()
+			rec.sess, rec.sstat = s, st
+			rec.mu.Unlock()
+			atomic.StoreInt32(&rec.served, 1)
+		}()
+	}
+	flag := func(rec *connRec, f func() bool) func() bool {
+		return func() bool { rec.mu.Lock(); defer rec.mu.Unlock(); return f() }
+	}
+	r := core.NewRand(c.SharedSeed, 161)
+	var finds []finding
+	var findRecs []*connRec
+	inconclusive := ""
+	for round := 0; round < c.SharedRounds && inconclusive == ""; round++ {
+		ord := sharedOrders[(round+int(c.SharedSeed%7))%len(sharedOrders)]
+		// --- no collection from here until the probe's checkers are inside their receives
+		gcPercent = debug.SetGCPercent(-1)
+		gcOff = true
+		// (1) trigger: two pre-phase sends that fail
+		for k := 0; k < 2; k++ {
+			mode := []string{"park-reject", "park-accept"}[r.Intn(2)]
+			t := newConn("trigger-"+mode, mode)
+			t.ca.Write(frames(msg(erpc.TypeAuthCall, 1, "", 's', []string{badToken, goodToken}[r.Intn(2)])))
+			serve(t)
+			if !settle(flag(t, func() bool { return t.parked })) {
+				inconclusive = "the trigger's checker did not reach its gate"
+				break
+			}
+			if r.Intn(2) == 0 {
+				t.ca.Close()
+			} else {
+				t.ca.Sever(true) // reset
+			}
+			t.release()
+			if !settle(func() bool { return atomic.LoadInt32(&t.served) == 1 }) {
+				inconclusive = "the trigger's accept path did not return"
+				break
+			}
+			t.mu.Lock()
+			if !t.sstat.OK() && t.verdictReached {
+				core.Add("shared_triggers_with_unwritable_reply", 1)
+			}
+			t.mu.Unlock()
+		}
+		// (2) probe: the checkers enter their receives one after the other, before any client byte
+		var probe []*connRec
+		for i, role := range ord.roles {
+			p := newConn(ord.label, "token")
+			p.sentAuth = role.token != "-"
+			if p.sentAuth {
+				p.wroteToken = role.token
+			}
+			d := role.token == goodToken
+			p.deserves = &d
+			probe = append(probe, p)
+			serve(p)
+			if inconclusive == "" && !settle(flag(p, func() bool { return p.checkerCalls > 0 })) {
+				inconclusive = fmt.Sprintf("the checker of probe connection %d was not entered", i)
+			}
+		}
+		debug.SetGCPercent(gcPercent)
+		gcOff = false
+		// --- collections are welcome again
+		if inconclusive != "" {
+			break
+		}
+		if !quiet() {
+			inconclusive = "no quiescence with the probe's checkers in their receives"
+			break
+		}
+		for _, wi := range ord.write {
+			p := probe[wi]
+			if p.sentAuth {
+				p.script = frames(msg(erpc.TypeAuthCall, 1, "", 's', p.wroteToken), msg(erpc.TypeCall, 2, rt.call, 'j', `"x"`))
+				p.ca.Write(p.script)
+			}
+			if !quiet() {
+				inconclusive = "no quiescence after a probe client wrote"
+				break
+			}
+		}
+		if inconclusive != "" {
+			break
+		}
+		judge := func(final bool) {
+			for _, f := range evaluate(srv, cs, probe, final) {
+				finds = append(finds, f)
+				findRecs = append(findRecs, probe[f.conn])
+			}
+			for _, p := range probe {
+				p.mu.Lock()
+				served := atomic.LoadInt32(&p.served) == 1
+				accepted := served && p.sstat.OK()
+				switch {
+				case p.recvDone && p.recvOK && p.tokenSeen != p.wroteToken:
+					finds = append(finds, finding{0, "checker-saw-foreign-token", fmt.Sprintf("the client of this connection wrote %s, its checker's receiver held %q when the receive returned",
+						describeToken(p), p.tokenSeen)})
+					findRecs = append(findRecs, p)
+				case p.recvDone && !p.sentAuth && !final:
+					finds = append(finds, finding{0, "checker-saw-foreign-token", fmt.Sprintf("the client of this connection has not written a byte, its checker's receive returned (receiver %q, status ok=%v)", p.tokenSeen, p.recvOK)})
+					findRecs = append(findRecs, p)
+				}
+				if served && accepted != *p.deserves {
+					finds = append(finds, finding{0, "wrong-verdict", fmt.Sprintf("the client of this connection wrote %s; the connection was %s (accept path: %s)",
+						describeToken(p), map[bool]string{true: "ACCEPTED", false: "refused"}[accepted], p.sstat.String())})
+					findRecs = append(findRecs, p)
+				}
+				p.mu.Unlock()
+			}
+		}
+		judge(false)
+		for _, p := range probe {
+			p.ca.Close()
+		}
+		if !quiet() {
+			inconclusive = "no quiescence after the probe's clients closed"
+			break
+		}
+		judge(true)
+		core.Add("shared_rounds", 1)
+		core.Add("shared_probe_connections", int64(len(probe)))
+		core.Add("evaluations", int64(len(probe)))
+		core.Add("connections", int64(len(probe)+2))
+		core.Distinct("nontrivial", "shared-pre-message/"+ord.label)
+		for _, p := range probe {
+			p.mu.Lock()
+			if atomic.LoadInt32(&p.served) == 1 && p.sstat.OK() {
+				core.Add("shared_probe_accepted", 1)
+				core.Add("handler_runs_on_accepted", int64(len(p.handlers)))
+			}
+			p.mu.Unlock()
+		}
+	}
+	core.Add("shared_cases_run_with_gomaxprocs_1", 1)
+	if len(cs.stray) > 0 {
+		core.Fatalf("events attributed to unknown connections: %v", cs.stray)
+	}
+	if len(finds) == 0 {
+		if inconclusive != "" {
+			core.Result(core.R{ID: id, Verdict: core.Inconclusive, What: inconclusive})
+			return
+		}
+		core.Result(core.R{ID: id, Verdict: core.Held, Nontrivial: true, Sig: c.Class})
+		return
+	}
+	seen := map[string]bool{}
+	k := 0
+	for i, f := range finds {
+		rec := findRecs[i]
+		fp := fmt.Sprintf("%s/shared-pre-message/%s/%s", *prop, rec.spec.Verdict, f.symptom)
+		if seen[fp] {
+			continue
+		}
+		seen[fp] = true
+		rid := id
+		if k > 0 {
+			rid = fmt.Sprintf("%s#%d", id, k)
+			core.Begin(rid, c)
+		}
+		k++
+		fs, tail := parseOut(rec.out)
+		w := describe(rec, fs, tail)
+		w["client_wrote"], w["checker_receiver_held"] = describeToken(rec), rec.tokenSeen
+		core.Result(core.R{ID: rid, Verdict: core.Violated, FP: fp, What: fmt.Sprintf("shared-pre-message / %s: %s", rec.spec.Verdict, f.detail), Witness: w, Desc: c})
+	}
+}
+
+func describeToken(p *connRec) string {
+	switch {
+	case !p.sentAuth:
+		return "nothing"
+	case p.wroteToken == "":
+		return "an AUTH_CALL with an empty body"
+	case p.wroteToken == goodToken:
+		return "the valid token"
+	}
+	return "a wrong token"
+}
+
 // ---------- generation ----------
 
 func genConn(r *core.Rand, first, verdict string) connSpec {
@@ -1159,11 +1450,15 @@ func main() {
 		var f struct {
 			Desc caseDesc `json:"desc"`
 		}
-		if err := json.Unmarshal(b, &f); err != nil || len(f.Desc.Conns) == 0 {
+		if err := json.Unmarshal(b, &f); err != nil || (len(f.Desc.Conns) == 0 && f.Desc.SharedRounds == 0) {
 			core.Fatalf("replay: no case description in %s (%v)", *replay, err)
 		}
 		core.Begin("replay", f.Desc)
-		runCase("replay", f.Desc)
+		if f.Desc.SharedRounds > 0 {
+			runShared("replay", f.Desc)
+		} else {
+			runCase("replay", f.Desc)
+		}
 		core.Finish()
 		return
 	}
@@ -1232,6 +1527,13 @@ func main() {
 		cases = append(cases, cd)
 		i += n
 	}
+	nShared := 8
+	if *tier == "thorough" {
+		nShared = 64
+	}
+	for i := 0; i < nShared; i++ {
+		cases = append(cases, caseDesc{Class: "shared-pre-message", SharedRounds: 12, SharedSeed: int64(r.Uint64() >> 1)})
+	}
 	for i, c := range cases {
 		if i%*nbatch != *batch {
 			continue
@@ -1241,7 +1543,11 @@ func main() {
 		if i < 3 {
 			core.Sample(c)
 		}
-		runCase(id, c)
+		if c.SharedRounds > 0 {
+			runShared(id, c)
+		} else {
+			runCase(id, c)
+		}
 	}
 	core.Finish()
 }
